@@ -1,25 +1,20 @@
-"""Per-property configuration of ./check: which model parts are regenerated, which Lean modules
-hold the property theorems, which Go harness and model-driver layer form the correspondence."""
+"""Per-property configuration of ./check, one JSON file per property in tools/props.d/:
 
-SLOT_GEN = {"cmd": "intfn", "out": "Aergo/Gen/Slot.lean",
-            "args": ["-ns", "Aergo.Gen.Slot", "{repo}/consensus/impl/dpos/slot/slot.go",
-                     "nsToMs", "msToIndex", "msToPrevIndex", "msToNextIndex", "Slot.NextBpIndex", "Slot.IsFor"]}
-ENC_GEN = {"cmd": "fields", "out": "Aergo/Gen/Enc.lean", "args": ["-repo", "{repo}"]}
+  gen         goext invocations that regenerate Lean files from the source ({repo} is substituted)
+  lean_props  Lean modules holding the property theorems (every non-private `theorem` is an obligation)
+  harness     Go harness package under /verif/harness/<name> (injected at /repo/zz_verif/<name>)
+  driver      lean_exe target of the model driver (default model-<id lower-case>); "" = no model trace
+  claimed     listed in MANIFEST.json only when true
+  level_text, level_note, model, residual, assumptions, trusted_base, timeout{quick,thorough}
+"""
+import glob, json, os
 
-PROPS = {
-    "C09": {
-        "gen": [SLOT_GEN, ENC_GEN],
-        "lean_props": ["Aergo.Props.C09"],
-        "harness": "c09",
-        "layer": "c09",
-        "model": "Aergo.Gen.Slot (regenerated from slot.go) + Aergo.Model.Slot (fromUnixNs, IsFuture, Cluster index, IsBlockValid) + Aergo.Gen.Enc header digest field lists",
-        "residual": "libp2p secp256k1 signature verification is an assumed-sound primitive; time.Now is read by the harness, not modelled",
-        "assumptions": ["ECDSA verification is sound", "producer set size 1..65534 (Go panics on size 0: integer modulo by zero)"],
-        "level_text": "Machine-checked Lean 4 theorems, for every timestamp, interval and producer-set size: a slot index has one owner index (owner_unique), positive instants are tiled by disjoint half-open slots (slots_partition, slot_of_instant_unique), round-robin rotation and coverage (rotation, round_covers_all), IsFuture = two or more slots ahead (isFuture_iff), producer id -> index is injective (index_injective), IsBlockValid accepts exactly members whose index owns the slot (blockValid_sound/complete) and never two producers for one instant (no_two_producers). The slot arithmetic the theorems talk about is regenerated from slot.go by tools/goext on every run; fromUnixNs/IsBlockValid/Cluster glue and the header sign digest are tied by a Go harness running the real code (slot sweep around round boundaries, signed blocks, every header-field mutation) against the lean_exe model driver.",
-        "level_note": "Trusted: Lean kernel; goext intfn/fields translators; harness+overlay; secp256k1 verification assumed sound (signature clause: the signed digest reads every header field except Sign - theorem in Props/C19 over the regenerated field lists, exercised here by mutation). int64 modelled as unbounded Int (|ns| < 2^62).",
-        "trusted_base": ["int64 arithmetic modelled on unbounded Int with truncating division (Int.tdiv/Int.tmod); |ns| < 2^62 in the correspondence"],
-    },
-}
+_D = os.path.join(os.path.dirname(os.path.abspath(__file__)), "props.d")
+ALL = {}
+for _f in sorted(glob.glob(os.path.join(_D, "C*.json"))):
+    ALL[os.path.basename(_f)[:-5]] = json.load(open(_f))
+PROPS = ALL
+CLAIMED = {k: v for k, v in ALL.items() if v.get("claimed")}
 
-NOT_YET = {p: "check not yet built in this round; planned per DESIGN.md section 4 (Lean model + theorems + correspondence harness)" for p in
-           ["C%02d" % i for i in range(1, 21)]}
+NOT_YET = {p: "check not yet built in this round; planned per DESIGN.md section 4 (Lean model + theorems + correspondence harness)"
+           for p in ["C%02d" % i for i in range(1, 21)]}
